@@ -35,10 +35,13 @@ RULE = (
     "converts (target differs from the frame the covariance had); distinct by (root, canonical source state, operation)"
 )
 BOUNDS = {
-    "quick": "7 start frames x 3 (orbit, matrix) pairings, EOP zero; histories to depth 4 (or fixpoint); "
-    "+ depth-1 check of Cov built with a frame *name*",
-    "thorough": "7 start frames x 3 orbits x 3 matrices, EOP zero and real IERS tables; histories to depth 5 "
-    "(the property's bound) or fixpoint",
+    "quick": "EOP zero; 7 start frames x 3 (orbit, matrix) pairings: every state reachable in <= 2 operations fully "
+    "expanded for one pairing per start frame (histories of length <= 3), every state reachable in 1 operation for the "
+    "other two (length <= 2); + depth-1 check of Cov built with a frame *name*",
+    "thorough": "EOP zero: 7 start frames x 3 orbits x 3 matrices; real IERS tables: 7 start frames, one (orbit, matrix) "
+    "pairing each; "
+    "breadth-first to depth 5 (the property's bound) — the search reaches its fixpoint (no new canonical state) at "
+    "depth 4, so histories of every length are covered",
 }
 ASSUMPTIONS = [
     "the 6x6 map of a state between two Earth-centred built-in frames at one date is linear and is what "
@@ -315,6 +318,16 @@ def canon(w, root):
     return key
 
 
+def exact(w):
+    """Bit-exact image of everything a pure operation must leave alone."""
+    cov = w.cov
+    out = [np.array(cov, dtype=float).tobytes(), np.array(cov.orb, dtype=float).tobytes(), fname(cov.frame),
+           fname(cov.orb.frame), fname(cov._orb_frame), str(cov.orb.form)]
+    if w.orb is not None:
+        out += [np.array(w.orb, dtype=float).tobytes(), fname(w.orb.frame), str(w.orb.form), w.orb.cov is cov]
+    return out
+
+
 def _root_scales(root):
     k = ("scales", root["matrix"])
     if k not in _W:
@@ -338,6 +351,7 @@ def step(root, w, op, case, t):
     pre_priv, pre_of = hidden(cov)
     pre_orb = fname(w.orb.frame) if w.orb is not None else None
     pre_key = canon(w, root)
+    pre_exact = exact(w) if kind in ("ccopy", "ocopy") else None
     if pre_priv != pre_of:
         hid = "stale-orb-frame"
     elif cls(pre_priv) == "rotating":
@@ -389,7 +403,7 @@ def step(root, w, op, case, t):
     # purity of the copying operations: the receiver is untouched (incl. hidden fields)
     if kind in ("ccopy", "ocopy"):
         post_key = canon(w, root)
-        if post_key != pre_key:
+        if post_key != pre_key or exact(w) != pre_exact:
             t.fail(base + "/receiver-changed", "copy(frame=) returns a new object and leaves the receiver unchanged",
                    case, repr(pre_key)[:300], repr(post_key)[:300], where)
             ok = False
@@ -403,7 +417,9 @@ def step(root, w, op, case, t):
         t.fail(base + "/nonfinite", "R C R^T is finite", case, None, c, where)
         return False, w2
     err = float(np.max(np.abs(cs - es)))
-    if not t.margin("cov vs R C0 R^T (scaled)", err, TOL_ORACLE, case):
+    if err <= TOL_ORACLE:
+        t.margin("cov vs R C0 R^T (scaled), states satisfying the property", err, TOL_ORACLE, case)
+    else:
         t.fail(base + "/value", "the result is R C R^T and depends only on the target frame, not on the frames visited before",
                case, e, c, f"{where}: scaled max error {err:.3e} (tol {TOL_ORACLE:g})")
         ok = False
@@ -493,26 +509,31 @@ def explore(root, depth, t, config):
 
 
 def units(tier, seed):
-    u = []
+    """Cost per root (measured): depth 2 = 2 s, depth 3 = 30 s, fixpoint (reached at depth 4, ~1250 states x 44
+    operations) = 115 s.  Units are ordered by decreasing cost so the pool stays balanced."""
+    pair = {"LEO": "dense", "GTO": "diag", "RETRO": "rank3"}
+    rot = lambda lst: lst[seed % len(lst):] + lst[: seed % len(lst)] if lst else lst
+    named = [
+        dict(root=dict(S="EME2000", orbit="LEO", matrix="dense", ctor="name"), depth=1),
+        dict(root=dict(S="TEME", orbit="GTO", matrix="diag", ctor="name"), depth=1),
+    ]
     if tier == "quick":
-        pair = {"LEO": "dense", "GTO": "diag", "RETRO": "rank3"}
         cfg = {"eop": "pass"}
-        for s in STARTS:
-            for o, m in pair.items():
-                u.append((cfg, dict(root=dict(S=s, orbit=o, matrix=m), depth=4)))
-        u.append((cfg, dict(root=dict(S="EME2000", orbit="LEO", matrix="dense", ctor="name"), depth=1)))
-        u.append((cfg, dict(root=dict(S="TEME", orbit="GTO", matrix="diag", ctor="name"), depth=1)))
-    else:
-        for eop in ("pass", "real"):
-            cfg = {"eop": eop}
-            for s in STARTS:
-                for o in ORBITS:
-                    for m in MATRICES:
-                        u.append((cfg, dict(root=dict(S=s, orbit=o, matrix=m), depth=5)))
-            u.append((cfg, dict(root=dict(S="EME2000", orbit="LEO", matrix="dense", ctor="name"), depth=1)))
-            u.append((cfg, dict(root=dict(S="TEME", orbit="GTO", matrix="diag", ctor="name"), depth=1)))
-    k = seed % len(u) if u else 0
-    return u[k:] + u[:k]
+        orbs = list(pair)
+        big, small = [], []
+        for k, s in enumerate(STARTS):
+            for j, o in enumerate(orbs):
+                p = dict(root=dict(S=s, orbit=o, matrix=pair[o]), depth=3 if j == k % 3 else 2)
+                (big if p["depth"] == 3 else small).append((cfg, p))
+        return rot(big) + rot(small) + [(cfg, p) for p in named]
+    u = []
+    cfg = {"eop": "pass"}
+    u += rot([(cfg, dict(root=dict(S=s, orbit=o, matrix=m), depth=5)) for s in STARTS for o in ORBITS for m in MATRICES])
+    cfg2 = {"eop": "real"}
+    orbs = list(pair)
+    u += rot([(cfg2, dict(root=dict(S=s, orbit=orbs[k % 3], matrix=pair[orbs[k % 3]]), depth=5)) for k, s in enumerate(STARTS)])
+    u += [(c, p) for c in (cfg, cfg2) for p in named]
+    return u
 
 
 def run_unit(p, t):
